@@ -134,6 +134,9 @@ class Spec(PropSpec):
     def signature(self, case):
         return F.case_signature(case)
 
+    def shrink_range(self, case):
+        return F.shrink_range(case)
+
     def histogram(self, cases):
         return F.histogram(cases)
 
